@@ -19,7 +19,7 @@ import (
 func TestRuleLevelTTLBoundsWhatARuleTakesFromTheCache(t *testing.T) {
 	rapid.Check(t, func(t *rapid.T) {
 		kind := rapid.SampledFrom([]string{"generic_authenticator", "oauth2_introspection", "jwt_authenticator", "remote_authorizer", "generic_contextualizer",
-			"jwt_finalizer", "oauth2_client_credentials"}).Draw(t, "kind")
+			"jwt_finalizer", "oauth2_client_credentials", "endpoint_http_cache"}).Draw(t, "kind")
 		long := rapid.SampledFrom([]string{"10m", "1h", ""}).Draw(t, "catalogueTTL") // "" = the default of the mechanism
 		short := rapid.SampledFrom([]time.Duration{2 * time.Second, 5 * time.Second, 20 * time.Second}).Draw(t, "ruleTTL")
 		gap := short + time.Duration(rapid.IntRange(1, 8).Draw(t, "secondsBeyond"))*time.Second
@@ -74,9 +74,25 @@ func TestRuleLevelTTLBoundsWhatARuleTakesFromTheCache(t *testing.T) {
 			step = "finalizer"
 			pc = config.MechanismConfig{"token_url": remote.URL() + "/token", "client_id": "c", "client_secret": "s"}
 			conf.Prototypes.Finalizers = append(conf.Prototypes.Finalizers, config.Mechanism{ID: "m", Type: "oauth2_client_credentials", Config: pc})
+		case "endpoint_http_cache":
+			// the lifetime configured for responses which name none themselves (default_ttl of the endpoint's http_cache) cannot
+			// be overridden in a rule: the two rules use two mechanisms of the catalogue calling the same endpoint
+			step, ttlOption = "contextualizer", "http_cache.default_ttl"
+
+			if long == "" {
+				long = "10m"
+			}
+
+			mech := func(id, ttl string) config.Mechanism {
+				return config.Mechanism{ID: id, Type: "generic", Config: config.MechanismConfig{"cache_ttl": "0s", "endpoint": map[string]any{
+					"url": remote.URL() + "/ctx", "method": "GET", "http_cache": map[string]any{"enabled": true, "default_ttl": ttl},
+				}}}
+			}
+
+			conf.Prototypes.Contextualizers = []config.Mechanism{mech("m", long), mech("m2", short.String())}
 		}
 
-		if long != "" {
+		if long != "" && kind != "endpoint_http_cache" {
 			pc[ttlOption] = long
 		}
 
@@ -89,7 +105,9 @@ func TestRuleLevelTTLBoundsWhatARuleTakesFromTheCache(t *testing.T) {
 
 		mk := func(id, path string, over map[string]any) rulecfg.Rule {
 			ref := config.MechanismConfig{step: "m"}
-			if over != nil {
+			if over != nil && kind == "endpoint_http_cache" {
+				ref[step] = "m2"
+			} else if over != nil {
 				ref["config"] = over
 			}
 
